@@ -155,6 +155,7 @@ NEEDS = {
  'C03_8': "root with a head, a guard redirects during activation and the head's entryGuard vetoes the redirect: C_::deepEntryGuard discards the head's result, the veto is masked by cancelledBefore in the sub-state",
  'C05_10': "plans enabled and the root's own update() reports a task status: C_::deepUpdate skips the active state's update() that cycle (preUpdate / postUpdate still run)",
  'C11_10': "two or more rounds in one step, earlier accepted, later vetoed, origin of the vetoed request differs from the accepted destination: fall-back to pendingTransition.origin, previousTransition() disagrees with the active state",
+ 'C14_4': 'odd-sized (sub-)list of states, active state first in a right half (N=3: B; N=5: C, D): widePreUpdate picks the half by (size + 1) / 2, another state receives preUpdate',
 }
 def sh(cmd, **kw):
     return subprocess.run(cmd, shell=True, stdout=subprocess.PIPE, stderr=subprocess.STDOUT, text=True, **kw)
